@@ -115,6 +115,25 @@ type Node struct {
 	Seen   map[H]bool // vertices ever observed confirmed on this node
 	Closed bool
 	Synced bool // obtained its ledger through LoadDag
+	// Tainted: addresses whose checkpointed net flow was negative at some truncation on this node
+	// (cross-branch overdraw, C02 known finding); their checkpoint funds are not judged afterwards.
+	Tainted map[string]bool
+	// Orphans: vertices that were reported as arriving before a parent on this node. While one of them is neither
+	// live nor checkpointed the background retry ticker may change the ledger at any moment.
+	Orphans map[H]bool
+}
+
+// BackgroundMayAct reports whether the retry ticker may still admit (or give up on) a parked vertex.
+func (n *Node) BackgroundMayAct(s *Snap) bool {
+	if len(s.Parked) > 0 {
+		return true
+	}
+	for h := range n.Orphans {
+		if _, ok := s.Vertex(h); !ok {
+			return true
+		}
+	}
+	return false
 }
 
 // Enabled oracles.
@@ -135,6 +154,7 @@ type World struct {
 	Users    []*Actor
 	Nodes    []*Node
 	Sealers  []*Actor // identities that seal vertices without running a node (harness-forged vertices)
+	Extra    []*Actor // wallets outside the random traffic (directed sub-scenarios)
 	Keys     map[string]ed25519.PublicKey
 	Hist     *History
 	Genesis  accountant.Vertex
@@ -151,6 +171,8 @@ type World struct {
 	// SlowVerify > 0 makes the injected signature verifier of new nodes sleep up to that long per call,
 	// which widens the window between the pre-lock checks and the locked section of admission.
 	SlowVerify time.Duration
+	// Quiet suppresses the snapshot after every operation (long ledgers are observed at milestones).
+	Quiet bool
 }
 
 type slowVerifier struct {
@@ -187,6 +209,8 @@ func (w *World) Logf(format string, a ...any) {
 func (w *World) Violate(prop, sig, detail string) {
 	w.Stats["viol/"+prop+"/"+sig]++
 	if !w.Report[prop] {
+		// observed by an oracle of another property than the one under check: counted, not reported
+		w.Res.Count("seen_by_other_oracle/"+prop+"/"+sig, 1)
 		return
 	}
 	tr := w.Trace
@@ -226,6 +250,11 @@ func (w *World) NameOf(addr string) string {
 			return s.Name
 		}
 	}
+	for _, s := range w.Extra {
+		if s.Addr == addr {
+			return s.Name
+		}
+	}
 	if len(addr) > 8 {
 		return addr[:8]
 	}
@@ -258,7 +287,7 @@ func (w *World) AddGenesisNode(name string, supply spice.Melange, receiver *Acto
 	if err != nil {
 		return nil, err
 	}
-	n := &Node{Idx: len(w.Nodes), Name: name, Actor: a, Book: b, cancel: cancel, Eval: map[H]*ConfEval{}, Seen: map[H]bool{}}
+	n := &Node{Idx: len(w.Nodes), Name: name, Actor: a, Book: b, cancel: cancel, Eval: map[H]*ConfEval{}, Seen: map[H]bool{}, Tainted: map[string]bool{}, Orphans: map[H]bool{}}
 	w.Nodes = append(w.Nodes, n)
 	v, err := b.CreateGenesis("GENESIS", supply, []byte{}, receiver.Addr)
 	if err != nil {
@@ -281,7 +310,7 @@ func (w *World) AddSyncedNode(name string, src *Node) (*Node, error) {
 	if err != nil {
 		return nil, err
 	}
-	n := &Node{Idx: len(w.Nodes), Name: name, Actor: a, Book: b, cancel: cancel, Eval: map[H]*ConfEval{}, Seen: map[H]bool{}, Synced: true}
+	n := &Node{Idx: len(w.Nodes), Name: name, Actor: a, Book: b, cancel: cancel, Eval: map[H]*ConfEval{}, Seen: map[H]bool{}, Synced: true, Tainted: map[string]bool{}, Orphans: map[H]bool{}}
 	w.Nodes = append(w.Nodes, n)
 	ctx, cancelCause := context.WithCancelCause(context.Background())
 	ch := src.Book.StreamDAG(ctx)
@@ -335,12 +364,17 @@ func (w *World) Propose(n *Node, trx *transaction.Transaction, tag string) (acco
 	if err == nil {
 		w.Hist.Add(&v)
 	}
+	if w.Quiet && len(w.Trace) > 300 {
+		w.Trace = append(w.Trace[:0], w.Trace[len(w.Trace)-100:]...)
+	}
 	w.Logf("%s.propose[%s] %s->%s %s trx=%s => %s", n.Name, tag, w.NameOf(trx.IssuerAddress), w.NameOf(trx.ReceiverAddress), MelStr(trx.Spice), Hex(trx.Hash), resStr(&v, err))
 	op := OpInfo{Kind: "propose", OK: err == nil, Err: err}
 	if err == nil {
 		op.Created = &v
 	}
-	w.Observe(n, op)
+	if !w.Quiet {
+		w.Observe(n, op)
+	}
 	return v, err
 }
 
@@ -365,9 +399,14 @@ func (w *World) Deliver(n *Node, v *accountant.Vertex, tag string) error {
 	c := CloneVertex(v)
 	w.Hist.Add(c)
 	err := n.Book.AddLeaf(w.Ctx, c)
+	if IsParked(err) {
+		n.Orphans[v.Hash] = true
+	}
 	w.Logf("%s.deliver[%s] vrx=%s (sealer %s, %s->%s %s, L=%s R=%s) => %v", n.Name, tag, Hex(v.Hash), w.NameOf(v.SignerPublicAddress),
 		w.NameOf(v.Transaction.IssuerAddress), w.NameOf(v.Transaction.ReceiverAddress), MelStr(v.Transaction.Spice), Hex(v.LeftParentHash), Hex(v.RightParentHash), errStr(err))
-	w.Observe(n, OpInfo{Kind: "deliver", OK: err == nil, Err: err, Offered: v})
+	if !w.Quiet {
+		w.Observe(n, OpInfo{Kind: "deliver", OK: err == nil, Err: err, Offered: v})
+	}
 	return err
 }
 
@@ -398,6 +437,9 @@ func (w *World) DeliverCancelled(n *Node, v *accountant.Vertex, tag string) erro
 	ctx, cancel := context.WithCancel(context.Background())
 	cancel()
 	err := n.Book.AddLeaf(ctx, c)
+	if IsParked(err) {
+		n.Orphans[v.Hash] = true
+	}
 	w.Logf("%s.deliver-cancelled-ctx[%s] vrx=%s (L=%s R=%s) => %v", n.Name, tag, Hex(v.Hash), Hex(v.LeftParentHash), Hex(v.RightParentHash), errStr(err))
 	w.Observe(n, OpInfo{Kind: "deliver", OK: err == nil, Err: err, Offered: v})
 	return err
